@@ -519,6 +519,10 @@ where
 			return Err(error);
 		}
 
+		if buf.is_empty() && index == 0 {
+			return Ok(Self::empty());
+		}
+
 		if (buf.len() as PeriodType) <= index {
 			let error =
 				SerdeError::custom(format!("Index {index} is out of window's buffer bounds."));
